@@ -1,6 +1,7 @@
 // Oracles of the program-shaped properties C01 C03 C07 C08 C16 C19 C20 (and the acceptance oracle shared with C04).
 // A case is always (file map, main name); everything else is re-derived from the text by the reference front end.
 #pragma once
+#include <sstream>
 #include <functional>
 #include <memory>
 
@@ -95,6 +96,18 @@ inline void oracle_C01(An &a, vf::Stats &st) {
   for (size_t k = 0; k < r.final_frames.size(); k++) {
     std::string d = cmp_view(vm, k, r.final_frames[k]);
     if (!d.empty()) { st.violation(a.key(), "final state: " + d, a.cj); return; }
+  }
+  if (n <= 4000) {
+    // the same machine used the way an interpreter session uses it: the location is polled after every instruction, the
+    // finished machine is reset and the program run again - the second run computes the same
+    vm.getCurrentBreak(); vm.reset(); long long m = 0;
+    while (!vm.isDone() && m < budget) { vm.executeSingle(); vm.getCurrentBreak(); m++; }
+    if (!vm.isDone() || m != n) { st.violation(a.key(), "run again on the same machine after reset() (location polled after every instruction): " + std::string(vm.isDone() ? "halts" : "still running") + " after " + std::to_string(m) + " instructions, the first run took " + std::to_string(n), a.cj); return; }
+    for (size_t k = 0; k < r.final_frames.size(); k++) {
+      std::string d = cmp_view(vm, k, r.final_frames[k]);
+      if (!d.empty()) { st.violation(a.key(), "run again on the same machine after reset() (location polled after every instruction): final state: " + d, a.cj); return; }
+    }
+    st.add("rerun_after_reset_compared");
   }
   st.sample("{\"source\":" + vf::jmap(a.files) + ",\"final_root_x0\":" + std::to_string(r.final_frames[0].vars.count("x0") ? r.final_frames[0].vars.at("x0") : 0) + "}", 3);
 }
@@ -283,34 +296,41 @@ inline void oracle_C07(An &a, vf::Stats &st, size_t cap = 400) {
   if (r.outside) { st.add("skipped_jump_into_counting_loop"); return; }
   if (r.big) { st.add("skipped_values_reach_2^31-1"); return; }
   st.nontrivial.insert(vf::fnv(a.cj));
-  Theo::VM vm(a.cr.code); vm.setSteppingMode(true);
-  size_t i = 0; long long instr = 0; uint64_t th = 0;
+  Theo::VM vm(a.cr.code); size_t i = 0; long long instr = 0; uint64_t th = 0;
+  // session 0: a new machine; session 1: the same machine after reset() (wherever session 0 left it: at the end, or in the
+  // middle of the run when the comparison stopped at the cap) - an interpreter session steps through a program repeatedly
+  for (int session = 0; session < 2; session++) {
+  std::string S2 = session ? "second stepping session on the same machine after reset(): " : "";
+  if (session) vm.reset();
+  vm.setSteppingMode(true); i = 0; uint64_t th1 = 0;
   for (;;) {
     if (vm.isDone()) break;
     long long guard = 0; bool stopped = false;
     while (guard++ < 100000) { instr++; if (vm.executeSingle()) { stopped = true; break; } }
-    if (!stopped) { st.violation(a.key(), "stepping: no stop within 100000 instructions after stop " + std::to_string(i), a.cj); return; }
+    if (!stopped) { st.violation(a.key(), S2 + "stepping: no stop within 100000 instructions after stop " + std::to_string(i), a.cj); return; }
     Theo::BreakPoint bp = vm.getCurrentBreak();
     if (bp.line == -1) continue;  // end of program
     if (i >= r.trace.size()) {
       if (r.trace_cut || !r.finished) break;  // prefix compared
-      st.violation(a.key(), "stepping: extra stop " + std::to_string(i) + " at " + bp.file + ":" + std::to_string(bp.line) + ", reference trace has " + std::to_string(r.trace.size()) + " stops", a.cj); return;
+      st.violation(a.key(), S2 + "stepping: extra stop " + std::to_string(i) + " at " + bp.file + ":" + std::to_string(bp.line) + ", reference trace has " + std::to_string(r.trace.size()) + " stops", a.cj); return;
     }
     const ref::StopRec &e = r.trace[i];
-    if (bp.file == "__standards__") { st.violation(a.key(), "stepping: stop " + std::to_string(i) + " inside the hidden standard-macro file", a.cj); return; }
+    if (bp.file == "__standards__") { st.violation(a.key(), S2 + "stepping: stop " + std::to_string(i) + " inside the hidden standard-macro file", a.cj); return; }
     if (bp.file != e.pos.file || bp.line != e.pos.line) {
-      st.violation(a.key(), "stepping: stop " + std::to_string(i) + " at " + bp.file + ":" + std::to_string(bp.line) + ", expected " + e.pos.file + ":" + std::to_string(e.pos.line), a.cj); return; }
-    if (vm.getActivations().size() != e.frames.size()) { st.violation(a.key(), "stepping: stop " + std::to_string(i) + " at " + bp.file + ":" + std::to_string(bp.line) + " has " + std::to_string(vm.getActivations().size()) + " activations, expected " + std::to_string(e.frames.size()), a.cj); return; }
+      st.violation(a.key(), S2 + "stepping: stop " + std::to_string(i) + " at " + bp.file + ":" + std::to_string(bp.line) + ", expected " + e.pos.file + ":" + std::to_string(e.pos.line), a.cj); return; }
+    if (vm.getActivations().size() != e.frames.size()) { st.violation(a.key(), S2 + "stepping: stop " + std::to_string(i) + " at " + bp.file + ":" + std::to_string(bp.line) + " has " + std::to_string(vm.getActivations().size()) + " activations, expected " + std::to_string(e.frames.size()), a.cj); return; }
     for (size_t k = 0; k < e.frames.size(); k++) {
       std::string d = cmp_view(vm, k, e.frames[k]);
-      if (!d.empty()) { st.violation(a.key(), "stepping: stop " + std::to_string(i) + " at " + bp.file + ":" + std::to_string(bp.line) + ": " + d, a.cj); return; }
+      if (!d.empty()) { st.violation(a.key(), S2 + "stepping: stop " + std::to_string(i) + " at " + bp.file + ":" + std::to_string(bp.line) + ": " + d, a.cj); return; }
     }
-    th = vf::mix(th ^ vf::fnv(bp.file) ^ (uint64_t)bp.line * 0x9e3779b97f4a7c15ULL ^ hash_frames(e.frames));
+    th1 = vf::mix(th1 ^ vf::fnv(bp.file) ^ (uint64_t)bp.line * 0x9e3779b97f4a7c15ULL ^ hash_frames(e.frames));
     i++;
     if (i >= cap) break;
   }
   if (i < r.trace.size() && !(i >= cap)) {
-    if (vm.isDone()) { st.violation(a.key(), "stepping: run ended after " + std::to_string(i) + " stops, reference has " + std::to_string(r.trace.size()) + (r.trace_cut ? "+" : "") + "; next expected " + r.trace[i].pos.file + ":" + std::to_string(r.trace[i].pos.line), a.cj); return; }
+    if (vm.isDone()) { st.violation(a.key(), S2 + "stepping: run ended after " + std::to_string(i) + " stops, reference has " + std::to_string(r.trace.size()) + (r.trace_cut ? "+" : "") + "; next expected " + r.trace[i].pos.file + ":" + std::to_string(r.trace[i].pos.line), a.cj); return; }
+  }
+  if (session == 0) th = th1; else { if (th1 != th) { st.violation(a.key(), S2 + "the stops and views differ from those of the first session", a.cj); return; } st.add("second_session_after_reset_compared"); }
   }
   st.add("stops_compared", (long long)i); st.max("stops", (long long)i); st.outcomes.insert(th);
   if (r.trace_cut || !r.finished) st.add("compared_on_prefix");
@@ -366,6 +386,14 @@ inline void oracle_C08(An &a, vf::Stats &st) {
     for (auto &b : av) A.insert({b.file, b.line}); for (auto &li : P.line_info) B.insert({li.second.file, li.second.line});
     if (A != B) e = "available locations (" + S(A.size()) + ") differ from the locations stepping can report (" + S(B.size()) + ")";
     st.max("locations", (long long)A.size());
+  }
+  if (e.empty()) {
+    // the read-only operations of a Program (printing it, listing its breakpoints) leave the tables as they are: a front
+    // end prints the code before it builds the machine
+    auto tables = [&](const Theo::Program &q) { std::string t; for (auto &pb : q.potential_breaks) { t += pb.first.file + ":" + S(pb.first.line) + "["; for (int i : pb.second) t += S(i) + ","; t += "]"; } t += "|"; for (auto &li : q.line_info) t += S(li.first) + "=" + li.second.file + ":" + S(li.second.line) + ","; t += "|" + S(q.code.size()); return t; };
+    Theo::Program used = P; std::ostringstream os; used.disassemble(os); used.getAvailableBreakpoints();
+    if (tables(used) != tables(P)) e = "printing the program (disassemble) or listing its breakpoints changed its breakpoint tables: " + S(used.line_info.size()) + " site entries afterwards, " + S(P.line_info.size()) + " before";
+    else st.add("tables_unchanged_by_observers");
   }
   st.add("programs"); st.add("sites", (long long)P.line_info.size());
   std::string shape; for (auto &pb : P.potential_breaks) shape += pb.first.file + ":" + S(pb.first.line) + "x" + S(pb.second.size()) + ",";
